@@ -604,6 +604,16 @@ func execCase(ops []string) (out []string) {
 				// oracle value: the group ID the from()/groupBy() nodes give the point (models.ToGroupID, C06's subject)
 				m := kv(t[4:])
 				m["name"], m["dims"], m["byname"] = fmt.Sprintf("m%s", t[2]), list(escAll(r.tasks.dims)), "0"
+				if r.tasks.kind == "joinon" {
+					// dimensions as the from()/groupBy() nodes set them (sorted): cpu and host for the specific parent
+					m["dims"] = "h"
+					if int(atoi(t[2])) == r.tasks.spec {
+						m["dims"] = "c,h"
+					}
+					p := mkPoint(m, 0)
+					gg := models.ToGroupID(p.Name(), p.GroupInfo().Tags, models.Dimensions{TagNames: r.tasks.cfg.on})
+					line = stripKey(stripKey(line, "ggrp"), "dims") + " dims=" + m["dims"] + " ggrp=" + kit.Esc(string(gg))
+				}
 				line = stripKey(line, "grp") + " grp=" + kit.Esc(string(mkPoint(m, 0).GroupID()))
 			}
 			guard(line, func() string { return r.taskOp(t) })
